@@ -48,7 +48,7 @@ class CohGen:
             templated_method_pair=False,                # D22 (matlab)
             this_types=(target == 'pybind'),            # D10 / D28 (matlab)
             templated_class_as_type=(target == 'pybind'),   # D28 (matlab)
-            nested_ns_class_enum=(target == 'pybind'),  # D25 (matlab): class-scoped enum in a class at ns depth >= 2
+            nested_ns_class_enum=True,                  # class-scoped enum in a class at ns depth >= 2 (D25, repaired)
             global_serialize=False,                     # D20
             ns_var_default=True,                        # namespaced variable with initialiser (D7, repaired)
             nonconst_print=False,                       # D36 (pybind)
